@@ -240,5 +240,6 @@ func (s *String) GetValue() []byte {
 
 // SetValue the bytes to string
 func (s *String) SetValue(data []byte) {
-	s.V = data
+	s.V = make([]byte, len(data))
+	copy(s.V, data)
 }
